@@ -1,7 +1,7 @@
-\* S2C generator (thorough): scripts of family real
+\* S2C generator (thorough): the same over the wider universe, full squares
 CONSTANTS Variant = "code"
           MaxCalls = 2
           Scope = "thorough"
-          Family = "real"
+          Family = "all"
 INIT InitScript
 NEXT NextScript
